@@ -567,6 +567,7 @@ def run(tier: str, seed: int) -> int:
         oc.violation({'property': PROP, 'kind': 'predicate-fails-on-implementation',
                       'failure': {'what': 'estimate-beyond-2^53', 'detail': bad_big[0]},
                       'note': 'dataset >= 2^53: the answer is neither the exact quotient nor an AssertionError'})
+    sem = common.pysem_stage(oc, PROP, ['kernels'], seed, tier)
     if not proof_ok and not oc.violations:
         # a proof obligation no longer checks; the run above was the search for a failing input
         oc.violation({'property': PROP, 'kind': 'proof-obligation-broken', 'unchecked': lean.get('failed'),
@@ -595,6 +596,7 @@ def run(tier: str, seed: int) -> int:
         'evaluations': len(results),
         'distinct_nontrivial': len(nontrivial),
         'distinct_cases': len(distinct),
+        **sem,
         'exhaustive': True,
         'rule': 'cases = (rounds list, heralded, calibration flag, repetitions, identifier-set shape). Exhaustive: all '
                 '516 lists of distinct rounds of length <= 4 over {0..5} (thorough: the 1236 of length <= 5) x heralded x flag x repetitions {1,2,3} with '
